@@ -1,6 +1,7 @@
 package linkedhashset
 
 import (
+	"github.com/emirpasic/gods/v2/containers"
 	"github.com/emirpasic/gods/v2/lists/doublylinkedlist"
 	"github.com/emirpasic/gods/v2/sets"
 	v "github.com/emirpasic/gods/v2/zzvsup"
@@ -40,4 +41,9 @@ func VInv(s *Set[int]) {
 func VHSetStep() {
 	s, pre := VGSet()
 	sets.VSetStep(s, pre, true, func() { VInv(s) })
+}
+
+func VHIter() {
+	s, pre := VGSet()
+	containers.VIterStep(func() containers.IteratorWithIndex[int] { it := s.Iterator(); return &it }, pre, s)
 }
